@@ -28,6 +28,36 @@ def module_effects(info: dict) -> dict:
                 and not n.module.endswith(".util"):
             for a in n.names:
                 imported_from_checks[a.asname or a.name] = n.module
+    # every name this module binds by an import (whatever the module): mutating such an object is
+    # mutating state that other modules see
+    imported_any = {}
+    for n in tree.body:
+        if isinstance(n, ast.ImportFrom) and n.module:
+            for a in n.names:
+                imported_any[a.asname or a.name] = f"{n.module}.{a.name}"
+        elif isinstance(n, ast.Import):
+            for a in n.names:
+                imported_any[(a.asname or a.name).split(".")[0]] = a.name
+    shared_mutations = set()
+
+    def root_name(e):
+        while isinstance(e, (ast.Attribute, ast.Subscript)):
+            e = e.value
+        return e.id if isinstance(e, ast.Name) else None
+    for fn in [n for n in ast.walk(tree) if isinstance(n, (ast.FunctionDef, ast.AsyncFunctionDef))]:
+        bound_here = {a.arg for a in fn.args.args + fn.args.kwonlyargs + fn.args.posonlyargs} | \
+                     {t.id for x in ast.walk(fn) if isinstance(x, ast.Name) and isinstance(x.ctx, ast.Store) for t in [x]}
+        for n in ast.walk(fn):
+            if isinstance(n, ast.Call) and isinstance(n.func, ast.Attribute) and n.func.attr in MUTATORS:
+                r = root_name(n.func.value)
+                if r in imported_any and r not in bound_here:
+                    shared_mutations.add(f"{imported_any[r]} (mutated via .{n.func.attr})")
+            tg = n.targets if isinstance(n, (ast.Assign, ast.Delete)) else [n.target] if isinstance(n, (ast.AugAssign, ast.AnnAssign)) else []
+            for t in tg:
+                if isinstance(t, (ast.Subscript, ast.Attribute)):
+                    r = root_name(t)
+                    if r in imported_any and r not in bound_here:
+                        shared_mutations.add(f"{imported_any[r]} (assigned through)")
     for fn in [n for n in ast.walk(tree) if isinstance(n, (ast.FunctionDef, ast.AsyncFunctionDef))]:
         local_objs = set()      # names bound in this function to instances of classes defined here (private helpers)
         params = {a.arg for a in fn.args.args + fn.args.kwonlyargs}
@@ -79,7 +109,7 @@ def module_effects(info: dict) -> dict:
         if isinstance(n, ast.Name) and n.id in imported_from_checks:
             foreign.add(f"{imported_from_checks[n.id]}.{n.id}")
     return dict(code=info["code"], module=info["module"], mutated_globals=sorted(mutated_globals), ast_writes=sorted(ast_writes),
-                errors_reads=sorted(errors_reads), foreign=sorted(foreign))
+                errors_reads=sorted(errors_reads), foreign=sorted(foreign), shared_mutations=sorted(shared_mutations))
 
 
 def translate(repo: Path):
@@ -89,7 +119,7 @@ def translate(repo: Path):
         # a name imported from another check module matters only if that module mutates it
         r["foreign_mutable"] = [f for f in r["foreign"]
                                 if f.rsplit(".", 1)[1] in by_mod.get(f.rsplit(".", 1)[0], {}).get("mutated_globals", [])]
-        r["foreign"] = r["foreign_mutable"]
+        r["foreign"] = r["foreign_mutable"] + r["shared_mutations"]
     from ..coq import coq_list, coq_str as S
     out = ["From Lib Require Import Base.", "Open Scope list_scope.",
            "(* per check: code, module-level objects mutated at run time, attributes of non-local objects assigned,",
